@@ -44,6 +44,9 @@ type mstmt struct {
 	// (x := grp.Use("/users", sub); x.Get(…)) instead of being made on the enclosing router. The
 	// reference composition always calls the enclosing router itself.
 	OnPrev bool `json:"on_return_value_of_previous_call,omitempty"`
+	// Tail > 0 (m, all): the call is rt.Add(methods, path, Hs[0], tail...) with the program's
+	// handler tail number Tail-1
+	Tail int `json:"handler_tail,omitempty"`
 }
 
 type subCfg struct {
@@ -63,15 +66,20 @@ type mprog struct {
 	RootCons []string `json:"root_custom_constraints,omitempty"`
 	// Shared: prefix lists kept in one slice variable each and passed to several Use calls
 	Shared [][]string `json:"shared_prefix_lists,omitempty"`
-	Root   []mstmt    `json:"root"`
+	// Tails: handler pipelines kept in one slice variable each (len < cap) and passed with `...`
+	// behind the first handler of several registrations
+	Tails [][]hspec `json:"shared_handler_tails,omitempty"`
+	Root  []mstmt   `json:"root"`
 	// LateRoot: registered on the serving app after it has answered requests, followed by
 	// RebuildTree(); the requests are then served once more
 	LateRoot []mstmt `json:"late_root,omitempty"`
 }
 
 // "api", "v1": prefixes spelled without their leading slash (the framework completes it)
-var mountPrefixes = []string{"/", "/api", "/api/", "/:v", "/a/b", "/Api", "/ab", "/abc", "/:Ver", "api", "v1"}
-var mountPaths = []string{"/", "/a", "/ab", "/abc", "/x", "/:p", "/a/:p", "/*", "/abc/d", "/:p?", "/api", "/a/", "/:pId", "/a/:Key", `/a\:b`, `/x\*`, `/ab\+/:p`, "/Ab", "/abc/", "/x/Y/"}
+var mountPrefixes = []string{"/", "/api", "/api/", "/:v", "/a/b", "/Api", "/ab", "/abc", "/:Ver", "api", "v1",
+	// greedy parameters in the prefix: the mounted routes' own greedy parameters are numbered on
+	"/a/*/api", "/x/+", "/+/ab"}
+var mountPaths = []string{"/", "/a", "/ab", "/abc", "/x", "/:p", "/a/:p", "/*", "/abc/d", "/:p?", "/api", "/a/", "/:pId", "/a/:Key", `/a\:b`, `/x\*`, `/ab\+/:p`, "/Ab", "/abc/", "/x/Y/", "/ab/+", "/abc/*", "/+"}
 
 // routes whose parameter carries a custom constraint; %s is the constraint's name
 var mountConsPaths = []struct{ Path, Param string }{
@@ -141,6 +149,31 @@ func (p *mprog) subApp(s *mstmt) *fiber.App {
 		cfg.CaseSensitive, cfg.Strict = s.Sub.CaseSensitive, s.Sub.Strict
 	}
 	return p.newApp(cfg, nil)
+}
+
+// mctx holds the slice variables of one build: prefix lists handed to several Use calls (nil in
+// the reference builds: every call gets a literal of its own) and handler tails.
+type mctx struct {
+	lists [][]string
+	tails [][]fiber.Handler
+}
+
+// newCtx instantiates the program's slice variables for one build. A handler tail is one slice,
+// grown by append (so it has spare capacity), passed with `...` behind the first handler of
+// every registration that names it — in every composition, the reference included.
+func (p *mprog) newCtx(tr *mtrace, lists bool) *mctx {
+	cx := &mctx{}
+	if lists {
+		cx.lists = p.sharedLists()
+	}
+	for _, t := range p.Tails {
+		var hs []fiber.Handler
+		for _, h := range t {
+			hs = append(hs, mHandler(tr, h))
+		}
+		cx.tails = append(cx.tails, hs)
+	}
+	return cx
 }
 
 // sharedLists instantiates the program's shared slice variables for one build.
@@ -286,7 +319,64 @@ func (g *mgen) routeStmt(inSub bool) mstmt {
 		}
 	}
 	s.Hs = g.hs(inSub)
+	// a handler pipeline kept in one slice variable and passed behind a route-specific first
+	// handler: grp.Get("/a", guardA, pipeline...), grp.Post("/b", guardB, pipeline...)
+	if (s.Kind == "m" || s.Kind == "all") && r.Chance(1, 5) {
+		p := g.prog
+		if len(p.Tails) > 0 && r.Chance(3, 4) {
+			s.Tail = r.Intn(len(p.Tails)) + 1
+		} else {
+			t := g.hsN(gen.Pick(r, []int{3, 3, 5, 2, 6}), inSub)
+			if r.Chance(2, 3) {
+				t[len(t)-1].Eff = effStop
+			}
+			p.Tails = append(p.Tails, t)
+			s.Tail = len(p.Tails)
+		}
+		s.Hs = g.hsN(1, inSub) // the guard passes on to the pipeline
+	}
 	return s
+}
+
+// hsN: k handlers that all call Next.
+func (g *mgen) hsN(k int, inSub bool) []hspec {
+	out := make([]hspec, k)
+	for i := range out {
+		out[i] = hspec{ID: g.nextID}
+		if inSub {
+			g.inSub[g.nextID] = true
+		}
+		g.nextID++
+	}
+	return out
+}
+
+// samePathPair: a registration for several methods at once (All, or Add with a method list) whose
+// 1–9 handlers all call Next, and directly behind it a mounted app whose first routes spell the
+// same full path for single methods.
+func (g *mgen) samePathPair(depth int, inSub bool) []mstmt {
+	r := g.r
+	prefix := gen.Pick(r, []string{"/api", "/ab", "/a/b", "/Api"})
+	sub := gen.Pick(r, []string{"/a", "/x", "/abc/d", "/:p", "/item"})
+	first := mstmt{Kind: "all", Path: joinPrefix(prefix, sub)}
+	methods := append(append([]string(nil), g.prog.methodPool()...), "PUT")
+	if r.Bool() {
+		gen.Shuffle(r, methods)
+		first = mstmt{Kind: "m", Methods: append([]string(nil), methods[:r.Range(2, len(methods))]...), Path: first.Path}
+	}
+	g.budget--
+	first.Hs = g.hsN(gen.Pick(r, []int{5, 7, 9, 5, 7, r.Range(1, 9)}), inSub)
+	m := g.mount(depth)
+	m.Prefix, m.PrefixList = prefix, nil
+	var head []mstmt
+	gen.Shuffle(r, methods)
+	for _, mm := range methods[:r.Range(2, 3)] {
+		s := mstmt{Kind: "m", Methods: []string{mm}, Path: sub, Hs: g.hsN(1, true)}
+		s.Hs[0].Eff = effStop
+		head = append(head, s)
+	}
+	m.Body = append(head, m.Body...)
+	return []mstmt{first, m}
 }
 
 // markSubRootUse notes middleware that a mounted app registers without any prefix of its own
@@ -329,6 +419,9 @@ func (g *mgen) body(depth int, inSub bool, own *[]string, subRoot bool) []mstmt 
 	var out []mstmt
 	for i := 0; i < n && g.budget > 0; i++ {
 		switch {
+		case depth < 3 && g.mounts < 4 && r.Chance(1, 10):
+			g.mounts++
+			out = append(out, g.samePathPair(depth, inSub)...)
 		case depth < 3 && g.mounts < 4 && r.Chance(1, 3):
 			g.mounts++
 			out = append(out, g.mount(depth))
@@ -478,7 +571,8 @@ func mHandler(tr *mtrace, h hspec) fiber.Handler {
 
 // mApplyRoute performs the statement's API call on rt. shared holds the build's slice variables
 // (nil: every Use([]string…) call gets a slice literal of its own).
-func mApplyRoute(rt fiber.Router, s *mstmt, tr *mtrace, shared [][]string) fiber.Router {
+func mApplyRoute(rt fiber.Router, s *mstmt, tr *mtrace, cx *mctx) fiber.Router {
+	shared := cx.lists
 	hs := make([]fiber.Handler, len(s.Hs))
 	for i, h := range s.Hs {
 		hs[i] = mHandler(tr, h)
@@ -501,8 +595,14 @@ func mApplyRoute(rt fiber.Router, s *mstmt, tr *mtrace, shared [][]string) fiber
 		}
 		return rt.Use(append([]any{pf}, anyHs(hs[0], hs[1:])...)...)
 	case "m":
+		if s.Tail > 0 {
+			return rt.Add(s.Methods, s.Path, hs[0], cx.tails[s.Tail-1]...)
+		}
 		return rt.Add(s.Methods, s.Path, hs[0], hs[1:]...)
 	case "all":
+		if s.Tail > 0 {
+			return rt.All(s.Path, hs[0], cx.tails[s.Tail-1]...)
+		}
 		return rt.All(s.Path, hs[0], hs[1:]...)
 	case "use":
 		return rt.Use(append([]any{s.Path}, anyHs(hs[0], hs[1:])...)...)
@@ -542,7 +642,7 @@ func mApplyMeta(owner, root *fiber.App, s *mstmt) bool {
 // root registers the whole constraint catalogue up front instead of RootCons only (used to name
 // the input class of a difference, never for a verdict).
 func buildMounted(p *mprog, tr *mtrace, allOnRoot bool) *fiber.App {
-	shared := p.sharedLists()
+	shared := p.newCtx(tr, true)
 	var late []func()
 	rootCons := p.RootCons
 	if allOnRoot {
@@ -596,6 +696,7 @@ func buildMounted(p *mprog, tr *mtrace, allOnRoot bool) *fiber.App {
 // buildFlat: composition (B) — the same handlers registered under Group(prefix) at the
 // position of the mount.
 func buildFlat(p *mprog, tr *mtrace) *fiber.App {
+	ref := p.newCtx(tr, false)
 	app := p.newApp(p.Cfg, mountConsNames())
 	var build func(rt fiber.Router, body []mstmt)
 	build = func(rt fiber.Router, body []mstmt) {
@@ -609,12 +710,12 @@ func buildFlat(p *mprog, tr *mtrace) *fiber.App {
 				g := rt.Group(s.Prefix)
 				build(g, s.Body)
 				for j := range s.Late {
-					mApplyRoute(g, &s.Late[j], tr, nil)
+					mApplyRoute(g, &s.Late[j], tr, ref)
 				}
 			case "group":
 				build(mGroup(rt, s, tr), s.Body)
 			default:
-				mApplyRoute(rt, s, tr, nil)
+				mApplyRoute(rt, s, tr, ref)
 			}
 		}
 	}
@@ -626,7 +727,7 @@ func buildFlat(p *mprog, tr *mtrace) *fiber.App {
 // Domain kept unambiguous: prefixes without trailing slash, paths starting with '/'.
 
 func buildGrouped(p *mprog, tr *mtrace) *fiber.App {
-	shared := p.sharedLists()
+	shared := p.newCtx(tr, true)
 	app := p.newApp(p.Cfg, p.RootCons)
 	var build func(rt fiber.Router, body []mstmt)
 	build = func(encl fiber.Router, body []mstmt) {
@@ -653,6 +754,7 @@ func buildGrouped(p *mprog, tr *mtrace) *fiber.App {
 }
 
 func buildSpelled(p *mprog, tr *mtrace) *fiber.App {
+	ref := p.newCtx(tr, false)
 	app := p.newApp(p.Cfg, mountConsNames())
 	var build func(prefix string, body []mstmt)
 	build = func(prefix string, body []mstmt) {
@@ -665,7 +767,7 @@ func buildSpelled(p *mprog, tr *mtrace) *fiber.App {
 				full := joinPrefix(prefix, s.Prefix)
 				if len(s.Hs) > 0 {
 					// Group(prefix, mw…) = the middleware registered under the group's full prefix
-					mApplyRoute(app, &mstmt{Kind: "use", Path: full, Hs: s.Hs}, tr, nil)
+					mApplyRoute(app, &mstmt{Kind: "use", Path: full, Hs: s.Hs}, tr, ref)
 				}
 				build(full, s.Body)
 				continue
@@ -696,7 +798,7 @@ func buildSpelled(p *mprog, tr *mtrace) *fiber.App {
 			default:
 				s.Path = joinPrefix(prefix, s.Path)
 			}
-			mApplyRoute(app, &s, tr, nil)
+			mApplyRoute(app, &s, tr, ref)
 		}
 	}
 	build("", p.Root)
@@ -801,6 +903,8 @@ func mountFeatures(p *mprog, s *mstmt, nested bool, kinds map[string]bool) {
 		kinds["root-prefix"] = true
 	case strings.HasSuffix(s.Prefix, "/"):
 		kinds["trailing-slash-prefix"] = true
+	case strings.ContainsAny(s.Prefix, "*+"):
+		kinds["greedy-param-prefix"] = true
 	case strings.Contains(s.Prefix, ":"):
 		kinds["param-prefix"] = true
 	default:
@@ -883,6 +987,28 @@ func handlerShapes(p *mprog) map[int]string {
 	return out
 }
 
+// tailReused: some handler tail is named by two or more registrations.
+func tailReused(p *mprog) bool {
+	uses := map[int]int{}
+	var walk func(b []mstmt)
+	walk = func(b []mstmt) {
+		for i := range b {
+			if b[i].Tail > 0 {
+				uses[b[i].Tail]++
+			}
+			walk(b[i].Body)
+			walk(b[i].Late)
+		}
+	}
+	walk(p.Root)
+	for _, n := range uses {
+		if n > 1 {
+			return true
+		}
+	}
+	return false
+}
+
 func hasKind(b []mstmt, kind string) bool {
 	for _, s := range b {
 		if s.Kind == kind || hasKind(s.Body, kind) {
@@ -921,6 +1047,9 @@ func checkMounted(e *ev.Env, c *ev.Case, p *mprog, g *mgen, reqs [][2]string) {
 	progClass := ""
 	if hasKind(p.Root, "rebuild") {
 		progClass = "+rebuildtree-during-registration"
+	}
+	if tailReused(p) {
+		progClass += "+handler-tail-slice-passed-to-several-registrations"
 	}
 	chained := chainedHandlers(p)
 	shapeOf := func(a, b []mrec) string {
@@ -1023,6 +1152,24 @@ func checkMounted(e *ev.Env, c *ev.Case, p *mprog, g *mgen, reqs [][2]string) {
 				if consLost(what) {
 					continue
 				}
+				if what == "params" && p.Cfg.Strict {
+					// same handlers, other values: the first handler whose parameters differ is a
+					// prefix-less middleware of a mounted app (registered as '<mount>/' instead of
+					// '<mount>' under StrictRouting, so a parameter at the end of the mount prefix
+					// ends at the slash) — the recorded finding
+					j := 0
+					for j < len(trA.recs) {
+						if ok, _ := recsEqual(trA.recs[j:j+1], trB.recs[j:j+1]); !ok {
+							break
+						}
+						j++
+					}
+					if j < len(trB.recs) && g.subRootUse[trB.recs[j].ID] {
+						e.Violation(c, "mount|strict-routing|prefixless-use-of-mounted-app-requires-slash-after-mount-path",
+							fmt.Sprintf("StrictRouting: %s %s: the mounted app's Use(h) middleware h%d sees other parameter values than under Group(prefix).Use(h)", m, path, trB.recs[j].ID), detail())
+						continue
+					}
+				}
 				if what == "trace" && p.Cfg.Strict {
 					if i < len(trB.recs) && g.subRootUse[trB.recs[i].ID] {
 						e.Violation(c, "mount|strict-routing|prefixless-use-of-mounted-app-requires-slash-after-mount-path",
@@ -1050,8 +1197,9 @@ func checkMounted(e *ev.Env, c *ev.Case, p *mprog, g *mgen, reqs [][2]string) {
 	// routes added to the running app (the same calls on every composition), then RebuildTree()
 	late := func(d *drive.Direct, tr *mtrace) bool {
 		return e.Guard(c, "mount|late-registration-on-serving-app", p, func() {
+			lateCtx := p.newCtx(tr, false)
 			for i := range p.LateRoot {
-				mApplyRoute(d.App, &p.LateRoot[i], tr, nil)
+				mApplyRoute(d.App, &p.LateRoot[i], tr, lateCtx)
 			}
 			d.App.RebuildTree()
 		})
@@ -1124,6 +1272,9 @@ func groupsClass(p *mprog) string {
 	}
 	if p.Methods != nil {
 		class += "+custom-request-methods"
+	}
+	if tailReused(p) {
+		class += "+handler-tail-slice-passed-to-several-registrations"
 	}
 	return class
 }
